@@ -210,6 +210,23 @@ Theorem C04_readcache_hit_truncated_refuted :
 Proof. exact readcache_hit_truncated_refuted. Qed.
 Print Assumptions C04_readcache_hit_truncated_refuted.
 
+(** A failed fill is not cached: when [get_page] fails, the chosen (LRU) slot is
+    left empty — it answers for no address of any space, whatever the callback wrote
+    into the buffer descriptor before failing — so the next request for that page
+    calls [get_page] again; the other slots and the MRU order are unchanged. *)
+Theorem C04_readcache_failed_fill_not_cached :
+  forall (get_page : N -> N -> option (N * N * list byte)) (c : cache) (a_as a : N)
+         (c' : cache) (ev : list event) (r : gres),
+    find_slot c a_as a = None -> get_page a_as a = None ->
+    get_cache_buf get_page c a_as a = (c', ev, r) ->
+    let v := prev (rg c) (mru (rg c)) in
+    r = GFail /\ size (get_slot c' v) = 0 /\
+    (forall b_as b, hit_test (get_slot c' v) b_as b = false) /\
+    (forall b_as b, find_slot c' b_as b <> Some v) /\
+    (forall j, j <> v -> get_slot c' j = get_slot c j) /\ rg c' = rg c.
+Proof. exact readcache_failed_fill_not_cached. Qed.
+Print Assumptions C04_readcache_failed_fill_not_cached.
+
 (** LRU order: the victim of a miss is the least recently touched slot; a
     successful call moves its slot to the front; bury moves it to the back and
     makes it the next victim (ring read from [mru] along [next]). *)
